@@ -83,7 +83,6 @@ fn to_expr(x: &X) -> Expr {
     }
 }
 
-const IS_NAMES: [&str; 8] = ["IsNull", "IsNotNull", "IsTrue", "IsNotTrue", "IsFalse", "IsNotFalse", "IsUnknown", "IsNotUnknown"];
 const IS_SQL: [&str; 8] = ["IS NULL", "IS NOT NULL", "IS TRUE", "IS NOT TRUE", "IS FALSE", "IS NOT FALSE", "IS UNKNOWN", "IS NOT UNKNOWN"];
 
 fn atom_text(x: &X) -> Option<String> {
@@ -174,7 +173,6 @@ fn with_child(x: &X, k: usize, c: X) -> X {
     }
     y
 }
-fn size(x: &X) -> usize { 1 + children(x).iter().map(|(_, c)| size(c)).sum::<usize>() }
 
 // ------------------------------------------------------------------------------------------------ the engine side
 struct Env { ctx: SessionContext, schema: DFSchema, batch: RecordBatch }
@@ -234,6 +232,11 @@ fn norm(e: Expr) -> Expr {
             Transformed::yes(Expr::Cast(Cast::new(expr, dt)))
         }
         Expr::Literal(ScalarValue::Utf8View(s), m) | Expr::Literal(ScalarValue::LargeUtf8(s), m) => Transformed::yes(Expr::Literal(ScalarValue::Utf8(s), m)),
+        // the planner folds a minus sign in front of a number into the literal
+        Expr::Negative(inner) => match inner.as_ref() {
+            Expr::Literal(ScalarValue::Int64(Some(v)), m) if *v != i64::MIN => Transformed::yes(Expr::Literal(ScalarValue::Int64(Some(-*v)), m.clone())),
+            _ => Transformed::no(Expr::Negative(inner)),
+        },
         e => Transformed::no(e),
     })).unwrap().data
 }
@@ -257,20 +260,21 @@ fn trip(env: &Env, x: &X, mode: Mode) -> Trip {
     Trip { sql, back, struct_ok }
 }
 
-/// minimal sub-tree (hoisting children, replacing children by a column) that still fails `bad`
+fn weight(x: &X) -> usize { 1 + (kind(x) == "NegativeLiteral") as usize + children(x).iter().map(|(_, c)| weight(c)).sum::<usize>() }
+/// every tree obtained by one reduction step somewhere: a node replaced by one of its children or by a column, an IN list item dropped
+fn reductions(x: &X) -> Vec<X> {
+    let mut out: Vec<X> = children(x).into_iter().map(|(_, c)| c.clone()).collect();
+    if weight(x) > 1 { out.push(X::Col(0)); }
+    if let X::In(n, e, l) = x { if l.len() > 1 { for k in 0..l.len() { let mut l2 = l.clone(); l2.remove(k); out.push(X::In(*n, e.clone(), l2)); } } }
+    let ch: Vec<X> = children(x).into_iter().map(|(_, c)| c.clone()).collect();
+    for (k, c) in ch.iter().enumerate() { for r in reductions(c) { out.push(with_child(x, k, r)); } }
+    out
+}
+/// a minimal tree (under single reduction steps) that still fails `bad`
 fn shrink(x: &X, bad: &dyn Fn(&X) -> bool) -> X {
     let mut cur = x.clone();
     'outer: loop {
-        let ch: Vec<X> = children(&cur).into_iter().map(|(_, c)| c.clone()).collect();
-        for c in &ch { if bad(c) { cur = c.clone(); continue 'outer; } }
-        for (k, c) in ch.iter().enumerate() {
-            // hoist a grand-child into the child's place, or cut the child down to an atom
-            let mut cands: Vec<X> = children(c).into_iter().map(|(_, g)| g.clone()).collect();
-            if size(c) > 1 { cands.push(X::Col(0)); }
-            for g in cands { let y = with_child(&cur, k, g); if size(&y) < size(&cur) && bad(&y) { cur = y; continue 'outer; } }
-        }
-        // an IN list with several items: drop items
-        if let X::In(n, e, l) = &cur { if l.len() > 1 { for k in 0..l.len() { let mut l2 = l.clone(); l2.remove(k); let y = X::In(*n, e.clone(), l2); if bad(&y) { cur = y; continue 'outer; } } } }
+        for r in reductions(&cur) { if weight(&r) < weight(&cur) && bad(&r) { cur = r; continue 'outer; } }
         return cur;
     }
 }
@@ -282,8 +286,10 @@ fn table_digest() -> String { ALL_OPS.iter().map(|o| format!("{}", o.precedence(
 /// class key of a failing expression = shape of its minimal failing sub-tree
 fn class_key(mode: Mode, min: &X) -> String {
     let ch = children(min);
-    let big: Vec<&(&'static str, &X)> = ch.iter().filter(|(_, c)| kind(c) != "atom").collect();
-    if big.len() != 1 || children(big[0].1).iter().any(|(_, g)| kind(g) != "atom") {
+    let is_neg = matches!(min, X::Neg(_));
+    let small = |c: &X| kind(c) == "atom" || (kind(c) == "NegativeLiteral" && !is_neg);
+    let big: Vec<&(&'static str, &X)> = ch.iter().filter(|(_, c)| !small(c)).collect();
+    if big.len() != 1 || children(big[0].1).iter().any(|(_, g)| !(kind(g) == "atom" || kind(g) == "NegativeLiteral")) {
         return format!("{}:complex:{}", mode.name(), x_sql(min));
     }
     let (pos, child) = *big[0];
@@ -375,7 +381,7 @@ const CMP_OPS: [Operator; 8] = [Operator::Eq, Operator::NotEq, Operator::Lt, Ope
 const STR_PRED_OPS: [Operator; 8] = [Operator::RegexMatch, Operator::RegexIMatch, Operator::RegexNotMatch, Operator::RegexNotIMatch,
     Operator::LikeMatch, Operator::ILikeMatch, Operator::NotLikeMatch, Operator::NotILikeMatch];
 
-struct G<'a> { rng: &'a mut Rng, wide: bool }
+struct G<'a> { rng: &'a mut Rng, wide: bool, portable: bool }
 impl<'a> G<'a> {
     fn atom(&mut self, t: Ty) -> X {
         if self.wide && self.rng.chance(1, 12) { return X::Null; }
@@ -400,7 +406,7 @@ impl<'a> G<'a> {
             return X::Cast(bx(self.gen(from, d - 1)), t);
         }
         match t {
-            Ty::I => if self.rng.chance(1, 6) { X::Neg(bx(self.gen(Ty::I, d - 1))) } else { X::Bin(*self.rng.pick(&INT_OPS), bx(self.gen(Ty::I, d - 1)), bx(self.gen(Ty::I, d - 1))) },
+            Ty::I => if self.rng.chance(1, 6) { X::Neg(bx(self.gen(Ty::I, d - 1))) } else { X::Bin(*self.rng.pick(if self.portable { &INT_OPS[..5] } else { &INT_OPS[..] }), bx(self.gen(Ty::I, d - 1)), bx(self.gen(Ty::I, d - 1))) },
             Ty::S => X::Bin(Operator::StringConcat, bx(self.gen(Ty::S, d - 1)), bx(self.gen(Ty::S, d - 1))),
             Ty::B => match self.rng.below(if self.wide { 10 } else { 9 }) {
                 0 | 1 => { let u = self.any_ty(); X::Bin(*self.rng.pick(&CMP_OPS), bx(self.gen(u, d - 1)), bx(self.gen(u, d - 1))) }
@@ -409,8 +415,9 @@ impl<'a> G<'a> {
                 4 => { let k = self.rng.below(8) as u8; let u = if k < 2 { self.any_ty() } else { Ty::B }; X::Is(k, bx(self.gen(u, d - 1))) }
                 5 => { let u = self.any_ty(); let n = 1 + self.rng.below(3); let e = self.gen(u, d - 1);
                        let items = (0..n).map(|_| if self.wide && self.rng.chance(1, 3) { self.gen(u, d - 1) } else { self.atom(u) }).collect(); X::In(self.rng.chance(1, 2), bx(e), items) }
-                6 => X::Like(self.rng.chance(1, 3), self.rng.chance(1, 3), bx(self.gen(Ty::S, d - 1)), bx(self.gen(Ty::S, d - 1))),
-                7 => X::Bin(*self.rng.pick(&STR_PRED_OPS), bx(self.gen(Ty::S, d - 1)), bx(self.gen(Ty::S, d - 1))),
+                6 => X::Like(self.rng.chance(1, 3), !self.portable && self.rng.chance(1, 3), bx(self.gen(Ty::S, d - 1)), bx(self.gen(Ty::S, d - 1))),
+                7 if !self.portable => X::Bin(*self.rng.pick(&STR_PRED_OPS), bx(self.gen(Ty::S, d - 1)), bx(self.gen(Ty::S, d - 1))),
+                7 => X::Like(false, false, bx(self.gen(Ty::S, d - 1)), bx(self.gen(Ty::S, d - 1))),
                 8 => { let u = self.any_ty(); X::Bin(*self.rng.pick(&CMP_OPS), bx(self.gen(u, d - 1)), bx(self.gen(u, d - 1))) }
                 _ => { let u = *self.rng.pick(&[Ty::I, Ty::S, Ty::B]); X::Between(self.rng.chance(1, 3), bx(self.gen(u, d - 1)), bx(self.gen(u, d - 1)), bx(self.gen(u, d - 1))) }
             },
@@ -550,6 +557,28 @@ fn has_inner_limit(q: &rg::Q, root: bool) -> bool {
     }
 }
 fn e_has_limit(e: &rg::E) -> bool { format!("{e:?}").contains("Limit(") }
+fn q_has_setop(q: &rg::Q) -> bool { let s = format!("{q:?}"); s.contains("SetOp(Intersect") || s.contains("SetOp(Except") }
+/// does some expression of the query have NOT / IS NULL / IN (the forms the unparser writes without parentheses) as a direct operand of
+/// an operator that binds tighter in the re-parser (comparison, arithmetic, BETWEEN, IN, IS NULL, IS DISTINCT FROM)?
+fn q_has_bare_operand(q: &rg::Q) -> bool {
+    // the Debug text of the query is a faithful prefix notation: look for `Parent(... , Bare(` at operand positions
+    let s = format!("{q:?}");
+    let bare = ["Not(", "IsNull(", "InList(", "InSub("];
+    let parents = ["Cmp(", "Arith(", "Distinct(", "Between(", "InList(", "IsNull(", "InSub("];
+    // walk the text keeping a stack of constructor names; an operand is a direct child of the constructor on top of the stack
+    let mut stack: Vec<String> = vec![];
+    let mut word = String::new();
+    for ch in s.chars() {
+        if ch.is_alphanumeric() || ch == '_' { word.push(ch); continue; }
+        if ch == '(' {
+            let w = format!("{word}(");
+            if bare.contains(&w.as_str()) { if let Some(top) = stack.last() { if parents.contains(&top.as_str()) { return true; } } }
+            stack.push(w);
+        } else if ch == ')' { stack.pop(); }
+        word.clear();
+    }
+    false
+}
 /// positions of the sort keys when the query's outermost operator is a sort (possibly under LIMIT) on plain output columns
 fn root_sort_keys(q: &rg::Q) -> Option<Vec<usize>> {
     let s = match q { rg::Q::Limit(_, _, c) => c.as_ref(), q => q };
@@ -565,6 +594,16 @@ fn plan_case(id: u64, stream: &str, tabs: &[rg::Tab], q: &rg::Q, optimized: bool
     let keys = root_sort_keys(q);
     let is_limit = matches!(q, rg::Q::Limit(..));
     let inner_limit = has_inner_limit(q, true);
+    let (setop, bare) = (q_has_setop(q), q_has_bare_operand(q));
+    let pfx = if optimized { "plan-optimized" } else { "plan" };
+    // class key of a failing plan: the known expression-level defect inside a plan; the set-operation defects; optimized plans coarsely; else stage + message
+    let key_of = move |stage: &str, msg: &str, why: &str| -> String {
+        if optimized { return format!("plan-optimized:{}", if stage == "compared" { "different-result" } else { "text-does-not-plan-again" }); }
+        if bare { return "plan:contains-expression-with-unparenthesised-operand".to_string(); }
+        if setop && stage == "compared" && why == "rows" { return "plan:intersect-except-null-equality-lost".to_string(); }
+        if setop && stage == "replan" && (msg.contains("No field named left.") || msg.contains("No field named \"left\".")) { return "plan:intersect-except-under-alias-dangling-left-qualifier".to_string(); }
+        if stage == "compared" { format!("{pfx}:different-{why}") } else { format!("{pfx}:{stage}:{}", msg_class(msg)) }
+    };
     let h = rt.spawn(async move {
         let ctx = SessionContext::new_with_config(SessionConfig::new().with_target_partitions(1));
         for (i, t) in tabs2.iter().enumerate() { register(&ctx, i, t); }
@@ -587,7 +626,7 @@ fn plan_case(id: u64, stream: &str, tabs: &[rg::Tab], q: &rg::Q, optimized: bool
             // text that does not plan / run again is a failure
             let ok = !matches!(stage, "replan" | "rerun") || msg == "timeout";
             println!("{head},\"sql1\":{},\"stage\":\"{stage}\",\"msg\":{},\"ok\":{ok},\"key\":{}}}", json_str(&sql1), json_str(&msg),
-                json_str(&format!("plan{}:{stage}:{}", if optimized { "-optimized" } else { "" }, msg_class(&msg))));
+                json_str(&key_of(stage, &msg, "")));
         }
         Ok(Ok((sql1, o0, o1))) => {
             let mut why = String::new();
@@ -607,7 +646,7 @@ fn plan_case(id: u64, stream: &str, tabs: &[rg::Tab], q: &rg::Q, optimized: bool
             println!("{head},\"sql1\":{},\"stage\":\"compared\",\"names0\":[{}],\"names1\":[{}],\"rows0\":{},\"rows1\":{},\"nrows\":{},\"why\":\"{why}\",\"ok\":{ok},\"key\":{}}}",
                 json_str(&sql1), o0.names.iter().map(|s| json_str(s)).collect::<Vec<_>>().join(","), o1.names.iter().map(|s| json_str(s)).collect::<Vec<_>>().join(","),
                 if ok { "null".to_string() } else { rows_json(&o0.rows) }, if ok { "null".to_string() } else { rows_json(&o1.rows) }, o0.rows.len(),
-                json_str(&format!("plan{}:different-{why}:{stream}", if optimized { "-optimized" } else { "" })));
+                json_str(&key_of("compared", "", &why)));
         }
     }
 }
@@ -695,14 +734,14 @@ fn main() {
         for id in 0..n {
             let t = *rng.pick(&[Ty::B, Ty::B, Ty::B, Ty::I, Ty::S]);
             let d = 2 + rng.below(3) as u32;
-            let x = G { rng: &mut rng, wide }.gen(t, d);
+            let x = G { rng: &mut rng, wide, portable: false }.gen(t, d);
             for mode in [Mode::Default, Mode::Pretty] { expr_case(&env, base + id, stream, &x, mode, true); }
         }
     }
     if want("dialect") {
         for id in 0..n {
             let t = *rng.pick(&[Ty::B, Ty::B, Ty::I, Ty::S]);
-            let x = G { rng: &mut rng, wide: true }.gen(t, 3);
+            let x = G { rng: &mut rng, wide: true, portable: true }.gen(t, 3);
             dialect_case(300_000 + id, &x, (id % 4) as usize);
         }
     }
